@@ -1,5 +1,69 @@
-import Exetera.Model.Join
-import Exetera.Spec.Join
-import Exetera.Lemmas.While
+import Exetera.Lemmas.JoinGeneralFinal
+import Exetera.Lemmas.JoinInnerSpec
+/-!
+# C03 — streaming join maps equal the relational join for every chunk size
+
+The theorems are about `Exetera.Join.streamed`, the model the correspondence driver executes (`Driver/C03.lean`), and about
+`Exetera.Spec.leftJoin` / `innerJoin`, the relational join. `Sorted` is `List.Pairwise (· ≤ ·)`. `fuel` is the number of
+driver-loop iterations the caller allows; any value above the stated linear bound gives the same result (also used by C12).
+An `.ok` result means: no out-of-bounds access in any kernel (C10), no loop ran out of fuel (C12).
+-/
 namespace Exetera.Props.C03
+open Exetera Exetera.Join Exetera.Spec
+
+/-- General left join, every chunk size ≥ 1, every marker: the streamed maps are exactly the relational left join. -/
+theorem left_streamed_eq {L R : List Int} {cs : Nat} (inv : Int) (hcs : 0 < cs) (hL : Sorted L) (hR : Sorted R)
+    (fuel : Nat) (hfuel : L.length + R.length + 2 * (leftJoin L R).length + 1 ≤ fuel) :
+    ∃ calls, streamed .left fuel cs inv L R =
+      .ok ⟨(encodeLeft inv (leftJoin L R)).1, (encodeLeft inv (leftJoin L R)).2, calls⟩ := by
+  have := general_streamed (emit := true) (inv := inv) hcs hL hR fuel (by simpa [sel] using hfuel)
+  simpa [sel, gvariant, encodeLeft] using this
+
+/-- General inner join, every chunk size ≥ 1: the streamed maps are exactly the equal-keyed pairs in (left, right) order. -/
+theorem inner_streamed_eq {L R : List Int} {cs : Nat} (inv : Int) (hcs : 0 < cs) (hL : Sorted L) (hR : Sorted R)
+    (fuel : Nat) (hfuel : L.length + R.length + 2 * (innerJoin L R).length + 1 ≤ fuel) :
+    ∃ calls, streamed .inner fuel cs inv L R =
+      .ok ⟨(encodeInner (innerJoin L R)).1, (encodeInner (innerJoin L R)).2, calls⟩ := by
+  have hspec := inner_eq_sel_left R L 0
+  have hlen : (sel false (leftJoin L R)).length = (innerJoin L R).length := by
+    have := congrArg (fun p => p.1.length) hspec
+    simpa [encodeInner, leftJoin, innerJoin] using this.symm
+  obtain ⟨calls, h⟩ := general_streamed (emit := false) (inv := inv) hcs hL hR fuel (by rw [hlen]; exact hfuel)
+  refine ⟨calls, ?_⟩
+  have h' : streamed .inner fuel cs inv L R = _ := h
+  rw [h']
+  simp only [innerJoin, hspec, leftJoin]
+  rw [encR_sel_false inv 0]
+
+/-- Chunking is unobservable (general left join): any two chunk sizes give the same maps. -/
+theorem left_chunk_unobservable {L R : List Int} (inv : Int) (hL : Sorted L) (hR : Sorted R) {cs₁ cs₂ : Nat}
+    (h₁ : 0 < cs₁) (h₂ : 0 < cs₂) (fuel : Nat) (hfuel : L.length + R.length + 2 * (leftJoin L R).length + 1 ≤ fuel) :
+    ∃ o₁ o₂, streamed .left fuel cs₁ inv L R = .ok o₁ ∧ streamed .left fuel cs₂ inv L R = .ok o₂ ∧
+      o₁.lout = o₂.lout ∧ o₁.rout = o₂.rout := by
+  obtain ⟨c₁, e₁⟩ := left_streamed_eq inv h₁ hL hR fuel hfuel
+  obtain ⟨c₂, e₂⟩ := left_streamed_eq inv h₂ hL hR fuel hfuel
+  exact ⟨_, _, e₁, e₂, rfl, rfl⟩
+
+/-- Chunking is unobservable (general inner join). -/
+theorem inner_chunk_unobservable {L R : List Int} (inv : Int) (hL : Sorted L) (hR : Sorted R) {cs₁ cs₂ : Nat}
+    (h₁ : 0 < cs₁) (h₂ : 0 < cs₂) (fuel : Nat) (hfuel : L.length + R.length + 2 * (innerJoin L R).length + 1 ≤ fuel) :
+    ∃ o₁ o₂, streamed .inner fuel cs₁ inv L R = .ok o₁ ∧ streamed .inner fuel cs₂ inv L R = .ok o₂ ∧
+      o₁.lout = o₂.lout ∧ o₁.rout = o₂.rout := by
+  obtain ⟨c₁, e₁⟩ := inner_streamed_eq inv h₁ hL hR fuel hfuel
+  obtain ⟨c₂, e₂⟩ := inner_streamed_eq inv h₂ hL hR fuel hfuel
+  exact ⟨_, _, e₁, e₂, rfl, rfl⟩
+
+/-- Every window handed to a kernel is a non-empty slice at the right offset ending at a run boundary — for every
+    chunk size ≥ 1 (this is what the widening loop of `get_next_chunk` is for). -/
+theorem trimmed_chunk_run_complete (xs : List Int) (start cs : Nat) (hcs : 0 < cs) (hs : start ≤ xs.length) :
+    ∃ c, getNextChunk xs start cs = .ok c ∧ c.lo = start ∧ ChunkOK xs c ∧ Boundary xs c :=
+  getNextChunk_ok xs start cs hcs hs
+
+-- non-vacuity: the hypotheses are met by a non-trivial input (duplicate runs longer than the chunk on both sides)
+example : Sorted [1, 1, 1, 1, 2, 5] ∧ Sorted [1, 1, 2, 3] ∧ 0 < 2 := by simp [Sorted]
+example : (streamed .left 100 2 (-1) [1, 1, 1, 1, 2, 5] [1, 1, 2, 3]).toOption.map (fun o => (o.lout, o.rout)) =
+    some (encodeLeft (-1) (leftJoin [1, 1, 1, 1, 2, 5] [1, 1, 2, 3])) := by decide
+example : (streamed .inner 100 1 0 [1, 1, 1, 1, 2, 5] [1, 1, 2, 3]).toOption.map (fun o => (o.lout, o.rout)) =
+    some (encodeInner (innerJoin [1, 1, 1, 1, 2, 5] [1, 1, 2, 3])) := by decide
+
 end Exetera.Props.C03
